@@ -868,7 +868,7 @@ class Prop:
             'gen/c17typed.py ENUMERATES 74 further classes (696 cases: every oneof unset, every bounded field at bound and bound + 1, SID lengths 0/4/15/16/17, every flag alone, each one-per-path sub-TLV twice, '
             'names around the two-octet length, values around 65535 octets, tunnel types around u16; LS attribute: SR ranges around the 20-bit label / 24-bit size / u32 wrap, delays and IGP metric around 24 bits, labels around 20 bits, weights / flags / algorithms around 255, every address spelling, 0/1/7/8/9 unreserved-bandwidth values); '
             'these kinds are modelled and compared with the model value for value. '
-            'gen/c17enum.py ENUMERATES 138 classes (about 4400 cases) on every run, one per clause / branch / comparison of the anchored functions with values on both sides of each boundary '
+            'gen/c17enum.py ENUMERATES 137 classes (about 4400 cases) on every run, one per clause / branch / comparison of the anchored functions with values on both sides of each boundary '
             '(every flags octet; value lengths around each type rule; segment counts 0/1/63/64/65/127/128/129/254/255/256/257 with AS numbers whose octets look like segment headers; 255/256 and 65535/65536-octet values; '
             'every extended-community type octet x sub-type x reserved-bit pattern; every bounded API field at bound and bound+1; every IPv4/IPv6/MAC spelling; label stacks and prefix lengths around the one-octet NLRI length; '
             'flowspec rule bodies of 239/240/241 and 4095/4096/4097 octets; MP_REACH header lengths; address-family edges); they are tagged enum:<class> in input_distribution. '
